@@ -7,6 +7,7 @@ new code).  Used once, for the "fix:" commit that makes the client refuse TLS_FA
 cipher suite; kept as the record of how the generated file was edited without the T0 compiler (mono).
 
 usage: t0patch.py <generated.c> [--set OFF=VAL ...] <byte offset> <b0> <b1> ...   (bytes in decimal or 0x..)
+       t0patch.py <generated.c> --delete OFF:N
   --set OFF=VAL   first replace the one-byte item at OFF (offsets before the insertion) by VAL: the relative
                   jumps of the word that cross the insertion point
 """
@@ -49,6 +50,44 @@ def main(argv):
         a, b = args[k + 1].split('=')
         sets[int(a, 0)] = int(b, 0)
         del args[k:k + 2]
+    if '--delete' in args:
+        # --delete OFF:N  remove the N bytes at OFF (whole items), shift the later word addresses down
+        k = args.index('--delete')
+        off, n = [int(x, 0) for x in args[k + 1].split(':')]
+        del args[k:k + 2]
+        path = args[0]
+        s = open(path).read()
+        m = re.search(r'(static const unsigned char t0_codeblock\[\] PROGMEM = \{)(.*?)(\n\};)', s, re.S)
+        body = m.group(2)
+        pos, cut = 0, []
+        for a, b in split_items(body):
+            w = nbytes(body[a:b])
+            if off <= pos < off + n:
+                if pos + w > off + n:
+                    sys.exit('deletion ends inside a multi-byte item')
+                cut.append((a, b))
+            pos += w
+        if sum(nbytes(body[a:b]) for a, b in cut) != n:
+            sys.exit('deletion does not cover whole items')
+        for a, b in reversed(cut):
+            e = b
+            while e < len(body) and body[e] in ', ':
+                e += 1
+            body = body[:a] + body[e:]
+        s = s[:m.start(2)] + body + s[m.end(2):]
+        m = re.search(r'(static const uint16_t t0_caddr\[\] PROGMEM = \{)(.*?)(\n\};)', s, re.S)
+        cnt = [0]
+
+        def down(mm):
+            v = int(mm.group(0))
+            if v > off:
+                cnt[0] += 1
+                return str(v - n)
+            return mm.group(0)
+        s = s[:m.start(2)] + re.sub(r'\d+', down, m.group(2)) + s[m.end(2):]
+        open(path, 'w').write(s)
+        print('deleted %d bytes at %d; %d word addresses shifted' % (n, off, cnt[0]))
+        return
     path, off = args[0], int(args[1], 0)
     new = [int(x, 0) for x in args[2:]]
     s = open(path).read()
